@@ -419,6 +419,109 @@ theorem setCommon_fields (fo : FloatOps) (c : StripeD) (arch : ArchD) (kind : Ki
                       obtain ⟨rfl, rfl⟩ := hcp
                       exact ⟨hifm, hofm, hw, rfl, rfl, rfl, rfl, rfl, _, rfl, Or.inr ⟨p0, lim, hp0, rfl⟩⟩
 
+/-- the explicit hypotheses of `build_legal_elementwise` -/
+structure WellFormedEw (c0 : StripeD) (arch : ArchD) (maxAddr : Int) : Prop where
+  /-- what `create_feature_map` computes for either input tensor of the command (with its own box and shape, and either list
+      of tile offsets: the operands may be exchanged) fits the address / stride / tile registers -/
+  inTiles : ∀ (t : TensD) (bx : BoxD) (sh : TensorAddr.S4) (offs : List Nat) (fm : FM),
+    ((t = c0.ifm ∧ bx = c0.ifmBox ∧ sh = c0.ifmShape0) ∨ (c0.ifm2 = some t ∧ c0.ifm2Box = some bx ∧ c0.ifmShape1 = some sh)) →
+    (offs = c0.op.tileOffsIfm0 ∨ offs = c0.op.tileOffsIfm1) →
+    createFm t bx arch sh offs none false = .ok fm → TilesFit fm maxAddr
+  ofmTiles : ∀ fm, createFm c0.ofm c0.ofmBox arch c0.ofmShape0 c0.op.tileOffsOfm c0.op.ofmStrideMult true = .ok fm → TilesFit fm maxAddr
+  zpIn : ∀ t q, (t = c0.ifm ∨ c0.ifm2 = some t) → (t.quant = some q ∨ c0.op.forcedInputQuant = some q) → ZpFits q.zeroPoint
+  zpOut : ∀ q, (c0.ofm.quant = some q ∨ c0.op.forcedOutputQuant = some q) → ZpFits q.zeroPoint
+  ofmBox : ShapeFits (blockOf c0.ofmBox)
+  ranges : ∀ ws bs, commonWeights c0 arch = .ok (ws, bs) → ∀ r ∈ ws ++ bs,
+    (0 ≤ r.address ∧ r.address < maxAddr) ∧ (0 ≤ r.length ∧ r.length < 2 ^ 32)
+  blockConfig : ShapeFits ⟨c0.blockConfig.1, c0.blockConfig.2.1, c0.blockConfig.2.2.2⟩
+
+/-- `commonWeights` does not look at the operands that the swap exchanges -/
+theorem commonWeights_congr (c c' : StripeD) (h1 : c'.weight = c.weight) (h2 : c'.weightDepth = c.weightDepth)
+    (h3 : c'.scale = c.scale) (arch : ArchD) : commonWeights c' arch = commonWeights c arch := by
+  simp only [commonWeights, h1, h2, h3]
+
+theorem getOfmQuant_congr (c c' : StripeD) (hop : c'.op = c.op) (hps : c'.psOps = c.psOps) (t : TensD) :
+    getOfmQuant c' t = getOfmQuant c t := by
+  simp only [getOfmQuant, hop, useZeroPoint0_congr c c' hop hps]
+
+/-- `(t, bx, sh)` is one of the two input operands of the command -/
+def InTriple (c0 : StripeD) (t : TensD) (bx : BoxD) (sh : TensorAddr.S4) : Prop :=
+  (t = c0.ifm ∧ bx = c0.ifmBox ∧ sh = c0.ifmShape0) ∨ (c0.ifm2 = some t ∧ c0.ifm2Box = some bx ∧ c0.ifmShape1 = some sh)
+
+/-- the command after `ewOrder` differs from the original only in which operand is IFM and which IFM2 -/
+theorem ewOrder_same (c0 c : StripeD) (rev : Bool) (h : ewOrder c0 = .ok (c, rev)) :
+    c.op = c0.op ∧ c.psOps = c0.psOps ∧ c.ofm = c0.ofm ∧ c.ofmBox = c0.ofmBox ∧ c.ofmShape0 = c0.ofmShape0 ∧
+    c.weight = c0.weight ∧ c.weightDepth = c0.weightDepth ∧ c.scale = c0.scale ∧ c.blockConfig = c0.blockConfig ∧
+    InTriple c0 c.ifm c.ifmBox c.ifmShape0 ∧
+    (∀ t b s, c.ifm2 = some t → c.ifm2Box = some b → c.ifmShape1 = some s → InTriple c0 t b s) := by
+  obtain ⟨t2, sh2, ht2, _, hcases⟩ := ewOrder_spec c0 c rev h
+  rcases hcases with ⟨rfl, _, _⟩ | ⟨_, _, _, hsw⟩
+  · exact ⟨rfl, rfl, rfl, rfl, rfl, rfl, rfl, rfl, rfl, Or.inl ⟨rfl, rfl, rfl⟩, fun t b s h1 h2 h3 => Or.inr ⟨h1, h2, h3⟩⟩
+  · obtain ⟨t2s, b2s, s1s, hs2, hsb2, hss1, rfl⟩ := swapOperands_spec c0 c hsw
+    refine ⟨rfl, rfl, rfl, rfl, rfl, rfl, rfl, rfl, rfl, Or.inr ⟨hs2, hsb2, hss1⟩, ?_⟩
+    intro t b s h1 h2 h3
+    simp only [Option.some.injEq] at h1 h2 h3
+    exact Or.inl ⟨h1.symm, h2.symm, h3.symm⟩
+
+/-- fields of what `set_common_op_fields` builds for an elementwise operation -/
+theorem setCommon_ew_fields (fo : FloatOps) (c : StripeD) (arch : ArchD) (b : BlockB)
+    (hbt : c.op.type.blockType = .elementWise) (h : setCommon fo c arch .elementwise = .ok b) :
+    commonIfm c arch = .ok b.ifm ∧ commonOfm c arch = .ok b.ofm ∧ commonWeights c arch = .ok (b.weights, b.biases) ∧
+    b.kernel = none ∧ b.padding = none ∧ b.ifm2 = none ∧ b.scalar = none ∧ b.kind = .elementwise ∧
+    b.blockConfig = ⟨c.blockConfig.1, c.blockConfig.2.1, c.blockConfig.2.2.2⟩ := by
+  unfold setCommon at h
+  split at h
+  · cases h
+  · rename_i ifmB hifm
+    split at h
+    · cases h
+    · rename_i ofmB hofm
+      split at h
+      · cases h
+      · rename_i ws bs hw
+        split at h
+        · cases h
+        · have hew : c.op.type.isElementwise = true := by simp [OpT.isElementwise, hbt]
+          simp only [commonPadding, hew, if_true] at h
+          split at h
+          · cases h
+          · injection h with h
+            subst h
+            exact ⟨hifm, hofm, hw, rfl, rfl, rfl, rfl, rfl, rfl⟩
+
+/-- the output-scale override keeps what `fitsFM` looks at -/
+theorem ewFinish_ofm_fits (fo : FloatOps) (op : OpD) (b : BlockB) (u : EwUpd) (maxAddr : Int)
+    (h : ewFinish fo op b = .ok u) (hf : FmFits b.ofm.fm maxAddr) :
+    FmFits u.ofm.fm maxAddr ∧ u.ofm.fm.shape = b.ofm.fm.shape := by
+  have hset : ∀ os : Fl, b.ofm.fm.hasQuant = true →
+      FmFits ({ b.ofm.fm with hasQuant := true, zeroPoint := b.ofm.fm.zeroPoint, scaled := true } : FM) maxAddr := by
+    intro os hq
+    obtain ⟨h1, h2, h3, h4, h5, h6, h7, h8, h9⟩ := hf
+    exact ⟨h1, h2, h3, h4, h5, h6, h7, h8, by simpa [hq] using h9⟩
+  unfold ewFinish at h
+  split at h
+  · cases h
+  · split at h
+    · split at h
+      · injection h with h; subst h; exact ⟨hf, rfl⟩
+      · cases h
+    · cases h
+  · injection h with h; subst h; exact ⟨hf, rfl⟩
+  · rename_i os _
+    by_cases hq : b.ofm.fm.hasQuant = true
+    · simp only [hq, Bool.not_true, Bool.false_eq_true, ↓reduceIte] at h
+      split at h
+      · split at h
+        · split at h
+          · injection h with h; subst h; exact ⟨hset os hq, rfl⟩
+          · cases h
+          · cases h
+        · injection h with h; subst h; exact ⟨hset os hq, rfl⟩
+      · injection h with h; subst h; exact ⟨hset os hq, rfl⟩
+    · have hq' : b.ofm.fm.hasQuant = false := by simpa using hq
+      simp only [hq', Bool.not_false, ↓reduceIte] at h
+      cases h
+
 /-- a non-elementwise block operation is what `set_common_op_fields` builds, up to the kind-specific fields -/
 theorem buildBlock_nonEw (fo : FloatOps) (c : StripeD) (arch : ArchD) (b : BlockB)
     (hne : c.op.type.isElementwise = false) (h : buildBlock fo c arch = .ok b) :
